@@ -40,8 +40,10 @@ var histRegexps = []histRegexp{
 	{name: "plain", pattern: `(a+)(b)?c`},
 	{name: "boolquick", pattern: `(x)(y)?z|(q)w`},
 	{name: "balancing", pattern: `(?<o>\()+[^()]*(?<-o>\))+(?(o)(?!))`},
-	{name: "stacklimit", pattern: `(?:(?:a*?b*?c*?d*?x)+?)+y`, opts: []regexp2.CompileOption{regexp2.OptionMaxBacktrackingStackSize(200)}},
-	{name: "timeout", pattern: `^(x+x+)+$`, timeout: 25 * time.Millisecond},
+	// the two Regexps that end in an error have an optional group in front: it holds a capture when the error strikes and
+	// must be unset in later matches of the same Regexp
+	{name: "stacklimit", pattern: `(q)?(?:(?:a*?b*?c*?d*?x)+?)+y`, opts: []regexp2.CompileOption{regexp2.OptionMaxBacktrackingStackSize(200)}},
+	{name: "timeout", pattern: `^(y)?(x+x+)+;`, timeout: 25 * time.Millisecond}, // anchored: every input but the catastrophic one is decided at once
 	{name: "rtl", pattern: `(\w)(\d)`, opts: []regexp2.CompileOption{regexp2.RightToLeft}},
 	{name: "replace", pattern: `(?<l>\w)(\d)`},
 	{name: "lookbehind", pattern: `(?<=(a)b)c|\Gx`},
@@ -51,7 +53,7 @@ var histRegexps = []histRegexp{
 func histInput(k int) string {
 	switch k {
 	case 0:
-		return "aabc xz (()) a1 b2 abc xxxxy"
+		return "xxx; aabc xz (()) a1 b2 abc xxxxy"
 	case 1:
 		return strings.Repeat("ab1 ", 300) + "aaabc (x) qw" // ~1.2K
 	case 2:
@@ -59,9 +61,9 @@ func histInput(k int) string {
 	case 3:
 		return strings.Repeat("é2 aabc ", 2200) + "((a)) xyz" // ~17.6K runes, multi-byte
 	case 4:
-		return strings.Repeat("x", 36) + "!" // the timeout Regexp never finishes on this one
+		return "y" + strings.Repeat("x", 36) + "!" // the timeout Regexp never finishes on this one
 	case 5:
-		return strings.Repeat("x", 30) // the stack-limited Regexp runs out of stack on this one
+		return "q" + strings.Repeat("x", 30) // the stack-limited Regexp runs out of stack on this one
 	}
 	return ""
 }
